@@ -454,6 +454,19 @@ func selectStmt(s *ast.SelectStmt) ast.Stmt {
 		clauses = append(clauses, &ast.CaseClause{List: []ast.Expr{intLit(idx)}, Body: body})
 		idx++
 	}
+	// Go's terminating-statement analysis: a select whose clauses all return is terminating, a switch is only
+	// if it has a default clause. Idx is always one of the emitted values, so one clause can safely be the default:
+	// the select's own default if it has one, else the last communication clause.
+	if len(clauses) > 0 {
+		def := len(clauses) - 1
+		for i, c := range clauses {
+			cc := c.(*ast.CaseClause)
+			if u, ok := cc.List[0].(*ast.UnaryExpr); ok && u.Op == token.SUB {
+				def = i
+			}
+		}
+		clauses[def].(*ast.CaseClause).List = nil
+	}
 	args := []ast.Expr{id(strconv.FormatBool(hasDef))}
 	args = append(args, cases...)
 	sw := &ast.SwitchStmt{
